@@ -506,6 +506,7 @@ func applyOp(w ingest.MutableWorld, e event, copies *[]ingest.Feature) (err erro
 		switch e.Op {
 		case "add":
 			f := obs.ToIngest(e.ID, e.F)
+			withListTag(f)
 			*copies = append(*copies, f)
 			err = w.AddFeature(f)
 		case "addtag":
@@ -525,6 +526,7 @@ func applyOp(w ingest.MutableWorld, e event, copies *[]ingest.Feature) (err erro
 					part := ingest.AddFeatures{}
 					for _, sub := range e.Ops[i:j] {
 						f := obs.ToIngest(sub.ID, sub.F)
+						withListTag(f)
 						*copies = append(*copies, f)
 						part = append(part, f)
 					}
@@ -548,6 +550,31 @@ func applyOp(w ingest.MutableWorld, e event, copies *[]ingest.Feature) (err erro
 		}
 	})
 	return
+}
+
+// listTag: in cases that contain a "mutate" step, every feature handed to AddFeature also carries a LIST-valued tag
+// (a key outside the model's key universe, not indexed), whose elements the caller overwrites afterwards.
+var listTag = false
+
+const listTagKey = obs.HarnessTagKey
+
+func withListTag(f ingest.Feature) {
+	if listTag {
+		f.AddTag(b6.Tag{Key: listTagKey, Value: b6.NewExpressions([]b6.AnyExpression{b6.StringExpression("a"), b6.StringExpression("b"), b6.StringExpression("c")})})
+	}
+}
+
+// listTags renders the list tag of every given feature as the world holds it.
+func listTags(w b6.World, ids []string) string {
+	var out []string
+	for _, n := range ids {
+		if f := w.FindFeatureByID(obs.ID(n)); f != nil {
+			if t := f.Get(listTagKey); t.IsValid() {
+				out = append(out, n+"="+t.Value.String())
+			}
+		}
+	}
+	return strings.Join(out, " ")
 }
 
 // mutateCopies changes every value the caller passed to AddFeature so far, and clones of them.
@@ -591,6 +618,12 @@ func mutate(f ingest.Feature) {
 				break
 			}
 		}
+	}
+	if listTag {
+		// replace elements of the list-valued tag one by one (b6.Set), then grow it
+		f.ModifyOrAddTagAt(b6.Tag{Key: listTagKey, Value: b6.NewStringExpression("mutated0")}, 0)
+		f.ModifyOrAddTagAt(b6.Tag{Key: listTagKey, Value: b6.NewStringExpression("mutated2")}, 2)
+		f.ModifyOrAddTagAt(b6.Tag{Key: listTagKey, Value: b6.NewStringExpression("mutated5")}, 5)
 	}
 	f.ModifyOrAddTag(b6.Tag{Key: "n", Value: b6.NewStringExpression("mutated")})
 	f.AddTag(b6.Tag{Key: "#zz", Value: b6.NewStringExpression("mutated")})
@@ -647,6 +680,12 @@ func runWorld(data json.RawMessage) vh.Verdict {
 	}
 	opts := obs.Options{Keys: c.Keys, Queries: c.Queries, Refs: true, Each: true, EachCores: c.Cores, Geometry: true}
 	cm := &comparer{c: &c, class: implClass(c.Impl)}
+	listTag = false
+	for _, st := range c.Steps {
+		if st.Ev.Op == "mutate" {
+			listTag = true
+		}
+	}
 	var copies []ingest.Feature
 	var snaps []b6.World
 	var snapTaken []obs.Observation
@@ -708,8 +747,12 @@ func runWorld(data json.RawMessage) vh.Verdict {
 			}
 			snapTaken = append(snapTaken, taken)
 		case "mutate":
+			listsBefore := listTags(w, c.IDs)
 			for _, p := range mutateCopies(copies) {
 				cm.add(i, "mutate", "clone-shares-state", p)
+			}
+			if la := listTags(w, c.IDs); la != listsBefore {
+				cm.add(i, "mutate", "list-tag", fmt.Sprintf("world changed when the caller replaced elements of a list-valued tag of values it had passed to AddFeature: before [%s] after [%s]", listsBefore, la))
 			}
 			var after obs.Observation
 			if !deadline("observe", i, func() { after = obs.Observe(w, c.IDs, opts) }) {
@@ -774,7 +817,14 @@ func runWorld(data json.RawMessage) vh.Verdict {
 			}
 		}
 	}
-	v := vh.Verdict{OK: len(relevant) == 0, Stats: map[string]int{"steps_executed": nsteps}}
+	v := vh.Verdict{OK: len(relevant) == 0, Stats: map[string]int{"steps_executed": nsteps, "steps_planned": len(c.Steps)}}
+	if len(relevant) == 0 && nsteps < len(c.Steps) {
+		// the run ended early for a mismatch that does not count for this property: its later steps were not checked
+		v.Stats["cases_cut_short_by_other_mismatch"] = 1
+		if len(cm.out) > 0 {
+			v.Msg = "cut short: " + cm.out[0].Key
+		}
+	}
 	if len(relevant) > 0 {
 		v.Key = relevant[0].Key
 		v.Msg = fmt.Sprintf("step %d [%s]: %s", relevant[0].Step, relevant[0].Section, relevant[0].Msg)
